@@ -886,7 +886,14 @@ def check_number_lexing(ctx, lib, rule):
         pc = [t for _, t in cn.calls() if t["callee"] == "core::str::<impl str>::parse"]
         ok = len(pc) == 1 and pc[0]["callee_args"] == ["i32"]
         me = [t for _, t in cn.calls() if t["callee"] == "std::result::Result::<T, E>::map_err"]
-        ok = ok and len(me) == 1
+        if ok and len(me) != 1:
+            # `match lexeme.parse::<i32>() { Ok(v) => v, Err(_) => return Err(..) }`: the failing edge ends in an error return only
+            from ..analysis import region_always_errs, success_edge
+            cbr = Branches(cn, o)
+            se = success_edge(cn, o, cbr, lambda ts: all(x[0] == "call" and x[1] == "core::str::<impl str>::parse" for x in ts))
+            ok = se is not None and region_always_errs(cn, {x for x in reach_avoiding(cn, se[2]) if edge_dominates(cn, (se[0], se[2]), x)})
+        else:
+            ok = ok and len(me) == 1
         unwraps = [t["callee"] for _, t in cn.calls() if re.search(r"::(unwrap|expect|unwrap_or|unwrap_or_default|unwrap_or_else)$", t["callee"])]
         ctx.check(ok and not unwraps, rule, "number-32bit", "a number lexeme goes through a fallible str::parse::<i32>() whose failure becomes a parse error (32-bit rule)", cn.span)
         clos = [c for c in lib.closures_of(L + "consume_number")]
